@@ -10,6 +10,7 @@
 #include <unistd.h>
 
 #include <algorithm>
+#include <cctype>
 #include <atomic>
 #include <filesystem>
 #include <map>
@@ -173,6 +174,22 @@ RawResponse raw_request(std::uint16_t port, const std::string& head, const std::
 }
 std::string headers(std::vector<std::pair<std::string, std::string>> h, Rng* shuffle = nullptr) {
     if (shuffle) std::shuffle(h.begin(), h.end(), *shuffle);
+    // The daemon upper-cases header names, the command word and the stream mode before it looks at them, so
+    // "stop", "Stop" and "STOP" are one command: one request in three is written in another spelling.
+    if (shuffle && shuffle->chance(1, 3)) {
+        const int style = static_cast<int>(shuffle->below(3));   // all lower / random per letter / first letter only
+        auto respell = [&](std::string& w) {
+            for (std::size_t i = 0; i < w.size(); ++i) {
+                const bool lower = style == 0 || (style == 1 && shuffle->chance(1, 2)) || (style == 2 && i > 0);
+                if (lower) w[i] = static_cast<char>(std::tolower(static_cast<unsigned char>(w[i])));
+            }
+        };
+        for (auto& [k, v] : h) {
+            const bool word_value = k == "COMMAND" || k == "STREAM";
+            respell(k);
+            if (word_value) respell(v);
+        }
+    }
     std::string s;
     for (auto& [k, v] : h) s += k + ":" + v + "\n";
     return s + "\n";
